@@ -629,6 +629,10 @@ def run(tier, args):
         "switch_to_assignment drops the move into physical register 6, (3) x86rapass.cpp treats a write-only same-register idiom (xor r,r) as read-only, "
         "(4) x86emithelper.cpp spills 64-bit mask registers with kmovd - all four detected as new x64:miscompile:<profile> / x64:crash:<profile> keys; "
         "the mutant 'xor r,r is merely treated as a read of r' is semantically equivalent (only liveness grows) and is, as expected, not detected",
+        "probe self-test (git worktree of /repo with one fix commit reverted each): every probe fires exactly for its fix - 7b46218 and-reg-zero, 893fb82 "
+        "or-mem-all-ones, c996df8 reg-to-mem-32bit-rmw, 7d1fabd reg-to-mem-high-byte, b6ac079 reg-to-mem-kmovw, 7106f2f vector-argument-avx512, 9b5029b "
+        "unreachable-predecessor, c1e90ec a64-tbl-register-list, d818bc6 vpternlog-merge-masked, 7a2ee99 same-reg-hint-different-views, 7a2ee99+86fe1c1 "
+        "same-reg-idiom-narrow(+vector); with d818bc6 or 7a2ee99 reverted the random generator alone also alarms (avx512/mixed resp. partial profile)",
         "not generated: calling conventions other than SysV/cdecl for helper calls (x86-32: cdecl/stdcall/fastcall function signatures are compiled only), "
         "MMX/x87 registers, ms_abi callees, string instructions with REP",
     ]
